@@ -309,6 +309,32 @@ example : (callsOf (run ([.reg 0 .cb, .exit 1 9, .sigchld, .reg 1 (.wait true), 
 example : (futsOf (run ([.reg 0 .cb, .exit 1 9, .sigchld, .reg 1 (.wait true), .exit 0 256] ++ [.drain])) 1).map (·.2.2)
     = [.calledProcessError (-9)] := by decide
 
+/-- **no leak**: under the same conditions a child that has exited is no longer in `Subprocess._waiting`, nothing
+about it is left in the loop's queue, and it has been reaped by tornado -/
+theorem reported_child_released (c : Nat) (m : Mode) (ops : List Op) (st : Nat) (hreg : Spec.regsOf c ops = [m])
+    (hfe : Spec.firstExit c ops = some st) (hsig : Spec.sigAfter c ops = true) :
+    (run (ops ++ [.drain])).waiting.contains c = false ∧
+    ((run (ops ++ [.drain])).queue.filter (fun e => e.1 == c)) = [] ∧
+    ((run (ops ++ [.drain])).subs c).proc = .reaped := by
+  have key : ∀ v : View, Good c { regs := [m], fe := some st, sig := true } v →
+      (vstep c v .drain).inW = false ∧ (vstep c v .drain).q = [] ∧ (vstep c v .drain).sub.proc = .reaped := by
+    intro v hg
+    obtain ⟨⟨proc, exitCb, rc⟩, inW, ini, q, nregs, calls, futs⟩ := v
+    simp only [Good] at hg
+    obtain ⟨r, hg⟩ := hg
+    rcases hg with hg | hg | hg
+    · simp at hg
+    · cases hd : decodeStatus st <;> simp_all [vstep, vSet]
+    · simp_all [vstep, vSet]
+  have hg := good_after c ops
+  rw [hreg, hfe, hsig] at hg
+  have k := key _ hg
+  rw [← view_drained] at k
+  simp only [view] at k
+  refine ⟨k.1, ?_, k.2.2⟩
+  have := k.2.1
+  simpa using this
+
 /-! ### at most once, for every history (re-registrations included) -/
 def Inv2 (v : View) : Prop :=
   (v.calls.map (·.reg)).Nodup ∧ (∀ k ∈ v.calls, k.reg < v.nregs) ∧
